@@ -135,8 +135,27 @@ def mdd_check(mdd, IU, ext=None):
                             stored=ref[u], expected=want)
         if ref[u] < indeg[u]:
             raise Violation('MDD reference count below in-degree', node=u)
+    # the computed table: only stored nodes, only correct entries
+    tab = getattr(mdd, '_ite_table', None)
+    entries = []
+    if isinstance(tab, dict):
+        for key, w in tab.items():
+            if not (isinstance(key, tuple) and len(key) == 3 and isinstance(w, int) and
+                    all(isinstance(x, int) for x in key)):
+                entries = None
+                break
+            for x in key + (w,):
+                if abs(x) not in succ:
+                    raise Violation('the MDD computed table mentions a node that is not stored',
+                                    entry=[list(key), w], node=abs(x))
+            entries.append((key, w))
     if IU is not None:
         d = MDen(mdd, IU)
+        for (g_, u_, v_), w_ in entries or ():
+            mg, mu, mv, mw = d(g_), d(u_), d(v_), d(w_)
+            if mw != (mg & mu) | ((IU.full ^ mg) & mv):
+                raise Violation('the MDD computed table holds an entry whose value is not '
+                                'ite(g, u, v)', entry=[[g_, u_, v_], w_])
         fs = {}
         for u in succ:
             m = d(u)
